@@ -10,6 +10,7 @@ import itertools
 import sys
 
 import numpy as np
+import sympy
 import z3
 
 from .. import common
@@ -36,6 +37,21 @@ EDGE_PAIRS = [([[0.0, 1.0]], [[-0.0, 1.0]]), ([[1, 0], [0, 1]], [[1.0, 0.0], [0.
               ([[1, 0, 0, 1]], [[1, 0], [0, 1]]), ([[-0.0]], [[0.0]]),
               ([[10 * r + c for c in range(10)] for r in range(10)], [[0.5 * r - c for c in range(10)] for r in range(12)]),
               ([[1.5] * 101], [[complex(r, -r)] for r in range(100)])]
+
+# the same array values in other memory layouts (transposed / reversed / Fortran-ordered views): what is serialised is the
+# array's *contents*, row by row.  (Object arrays that mix SymPy expressions with numbers are not among the supported values
+# of the property; their determinism across hash seeds is C19's.)
+def _views():
+    out = []
+    for dt in (np.int64, np.float64, np.complex128):
+        base = (np.arange(6).reshape(2, 3) * (1.5 if dt is not np.int64 else 1) + (0.25j if dt is np.complex128 else 0)).astype(dt)
+        out += [("%s transposed" % dt.__name__, base.T), ("%s rows reversed" % dt.__name__, base[::-1]), ("%s columns reversed" % dt.__name__, base[:, ::-1]),
+                ("%s fortran order" % dt.__name__, np.asfortranarray(base)), ("%s every other column" % dt.__name__, np.arange(12).reshape(2, 6).astype(dt)[:, ::2]),
+                ("%s rot90" % dt.__name__, np.rot90(base))]
+    return out
+
+
+VIEWS = _views()
 
 TAGS = {"int": int, "float": float, "complex": complex, "np.int64": np.int64, "np.float64": np.float64, "np.complex128": np.complex128}
 
@@ -205,6 +221,11 @@ def build(spec, vs):
         a, b = EDGE_PAIRS[spec[1]]
         prog._operations.append({"op": "G", "args": [np.array(a)], "kwargs": {"k": np.array(b)}, "modes": [0]})
         prog._operations.append({"op": "H", "args": [np.array(b), np.array(a)], "kwargs": {}, "modes": [1]})
+    elif kind == "view":
+        arr = VIEWS[spec[1]][1]
+        for e in np.ndarray.flatten(arr):
+            add_params(e)
+        prog._operations.append({"op": "G", "args": [arr], "kwargs": {"k": arr}, "modes": [0]})
     elif kind == "edge":
         _, slot, i = spec
         v = EDGE[i]
@@ -261,6 +282,7 @@ def gen_specs(tier, seed):
     for i in range(len(EDGE)):
         for slot in ("pos", "kw", "list", "opt", "arr"):
             specs.append(("edge", slot, i))
+    specs += [("view", i) for i in range(len(VIEWS))]
     return specs
 
 
@@ -268,9 +290,10 @@ def run_spec(spec):
     w = _script.winit()
     bb = w["bb"]
     out = {"spec": spec, "result": "holds", "paths": 0, "stats": None, "why": None, "cex": None, "funcs": [], "reach": 0}
-    if spec[0] in ("edge", "edgepair"):
+    if spec[0] in ("edge", "edgepair", "view"):
         r = concrete_check(spec, [], w)
         out.update(text=("edge value %r in slot %s (concrete instantiation)" % (EDGE[spec[2]], spec[1])) if spec[0] == "edge" else
+                   ("array view: %s (concrete instantiation)" % VIEWS[spec[1]][0]) if spec[0] == "view" else
                    "arrays %r and %r in one program (concrete instantiation)" % EDGE_PAIRS[spec[1]], paths=1, reach=1, validated=1)
         if isinstance(r, dict):
             r["symbolic_what"] = r["what"]
